@@ -5,6 +5,11 @@ OUT=/verif/seeded/RESULTS.jsonl
 : > $OUT
 for d in seeded/C*_[a-z]; do
   S=$(basename $d); ID=${S%%_*}
+  if [ -f $d/NEUTRALISED ]; then
+    # a later fix: commit in /repo removed the defect this change relied on: it no longer breaks the property (its own demo passes)
+    python3 -c "import json,sys; print(json.dumps({'seed':sys.argv[1],'property':sys.argv[2],'neutralised':open(sys.argv[3]).read().strip()[:200]}))" $S $ID $d/NEUTRALISED >> $OUT
+    continue
+  fi
   LOG=$(mktemp)
   tools/try_seed.sh $S $ID quick > $LOG 2>&1; RC=$?
   FIRST=$(grep -m1 "^VIOLATION" $LOG | sed 's/.*obligation=//' | cut -c1-200)
